@@ -594,6 +594,10 @@ func runC10(c *Ctx) {
 		el := c.entryLockset(f)
 		c.verdict(pkg+".(*TTLCache).evictLocked:callers-hold-mu", f.Pos(), el["c.mu"] == lockW, "all callers hold c.mu", "a caller of evictLocked does not hold c.mu")
 	}
+	// the holders: references are not given back while the value is still in use, and every reference is given back
+	clauseLRUPin(c, "C10.h")
+	clauseCacheReleaseDiscipline(c, "C10.i")
+	clauseTTLOwnership(c, "C10.j")
 	c.assume("groupcache/lru removes the element from its index before invoking OnEvicted and is not concurrency-safe by itself (protected by LRUCache.mu)")
 	c.assume("sync.Once, sync.Mutex and time.AfterFunc behave as documented")
 }
